@@ -129,3 +129,11 @@ Proof. eexists. split; [vm_compute; reflexivity|repeat split; reflexivity]. Qed.
 Example C11_example_fresh : exists s, run2 (init2 cfg_fresh) ex_fresh = Some s /\
   rets (base s) = [(0%nat, 1%nat, 48, RetVal KBool 1)] /\ store (base s) = [66; 55] /\ gen s = 2%nat.
 Proof. eexists. split; [vm_compute; reflexivity|repeat split; reflexivity]. Qed.
+
+(* nothing above depends on the salt VALUES being distinct: [ex_same_salt] - two requests rejected by two
+   bad_server_salt messages naming the same salt (the second one arrives when that salt is already in force),
+   then a rotation to another salt and back to the first: every rejection is honoured, 4 retries, 4 store writes *)
+Example C11_example_same_salt : exists s, run2 (init2 cfg_resumed) ex_same_salt = Some s /\
+  rets (base s) = [(1%nat, 1%nat, 52, RetVal KObj 8); (0%nat, 1%nat, 60, RetVal KObj 7)] /\
+  store (base s) = [777; 778; 777; 777] /\ retries (elog (base s)) = [56; 48; 44; 40].
+Proof. eexists. split; [vm_compute; reflexivity|repeat split; reflexivity]. Qed.
